@@ -6,6 +6,15 @@ use serde_json::{Value, json};
 pub fn run(_st: &mut State, op: &str, cmd: &Value) -> Value {
     match op {
         "codec.hash" => {
+            // an empty index file of the first kind (from the script), to ask for the two-part key of a path
+            let index1 = cmd["_index1"].as_str().and_then(|h| {
+                let mut p = std::env::temp_dir();
+                p.push(format!("physis-shim-hash-{}.index", std::process::id()));
+                std::fs::write(&p, crate::ops_patch::unhex(h)).ok()?;
+                let i = physis::sqpack::SqPackIndex::from_existing(p.to_str()?);
+                let _ = std::fs::remove_file(&p);
+                i
+            });
             let mut out = vec![];
             for s in cmd["ss"].as_array().cloned().unwrap_or_default() {
                 let b = get_bytes(&s);
@@ -14,10 +23,16 @@ pub fn run(_st: &mut State, op: &str, cmd: &Value) -> Value {
                     continue;
                 };
                 out.push(guarded(|| {
-                    value(json!({
+                    let mut v = json!({
                         "partial": w32(physis::sqpack::SqPackIndex::calculate_partial_hash(&text)),
                         "shcrc": w32(physis::shpk::ShaderPackage::crc(&text)),
-                    }))
+                    });
+                    if let (Some(ix), true) = (index1.as_ref(), text.contains('/')) {
+                        if let physis::sqpack::Hash::SplitPath { name, path } = ix.calculate_hash(&text) {
+                            v["split"] = json!([w32(name), w32(path)]);
+                        }
+                    }
+                    value(v)
                 }));
             }
             Value::Array(out)
